@@ -22,7 +22,15 @@ RULE = ("cells = solver family x (problem shape, storage, shift, start vector, p
         "mixed signs / far, all exactly representable) is handed over as integer-dtype array, float32 array, list and CUQIarray; "
         "the returned point is judged by the same independent optimality systems AND compared with the float64-start run of "
         "the same configuration (iterative solvers) resp. with the direct SciPy call on the same object (wrappers), and the "
-        "caller's start object must come back untouched (type, dtype, values).  A cell is non-trivial when the solver stopped "
+        "caller's start object must come back untouched (type, dtype, values).  Start-SCALE facet (iterative solvers CGLS, PCGLS, "
+        "FISTA/ISTA, LM): the catalogue start vectors multiplied by 2^e, e in {0 (base product), 10, 20, 30}.  Right-hand-side / "
+        "solution STRUCTURE facet (same solvers): b = 0 (solution exactly 0 when the system is non-singular), b EXACTLY orthogonal "
+        "to range(A) (integer left null vector found by rational elimination; A^T b = 0 in floating point), b = 2^-40 x catalogue b "
+        "(solution of tiny norm relative to the start), each from the zero, ones and far start, with and without shift, both "
+        "operator forms; LM: zero / orthogonal / tiny data of the quadratically perturbed linear problem and zero / tiny data of "
+        "the exponential fit.  Both facets are judged by the same independent dense optimality systems, at a tolerance that is "
+        "relative to the problem and accounts for the solver's stopping rule being relative to the INITIAL residual / gradient; "
+        "every input is a legal float64 ndarray problem, so a raise is a violation.  A cell is non-trivial when the solver stopped "
         "by its own convergence test (before maxit) or, for prox cells, when the lattice has points on both sides of every bound")
 BOUND = {
     "quick": "CGLS: 3 shapes (6x4,5x5,3x5) x dense/sparse x shift{0,.5} x 4 starts x {matrix,function}; PCGLS: same x "
@@ -34,11 +42,20 @@ BOUND = {
              "start representation {int64, float32, list, CUQIarray} x start point {zero, ints (+far for non-integer reps; "
              "dyadic for wrappers)}: CGLS 3 shapes x shift{0,.5} x both forms, PCGLS same x P=lower bidiagonal x {explicit inverse, "
              "solve}, FISTA and ISTA 6x4 x {L1, vector box} x both forms, LM {expfit, quadpert} x 2 starts x {sparse+csr, dense}, "
-             "L_BFGS_B grad/no grad x {none, bounds}, minimize+maximize 5 methods, LS 3 methods x jac/None x 2 starts",
+             "L_BFGS_B grad/no grad x {none, bounds}, minimize+maximize 5 methods, LS 3 methods x jac/None x 2 starts; "
+             "start scale 2^{10,20,30}: CGLS 3 shapes x shift{0,.5} x {ones,e1,far}, PCGLS same x P{I, lower bidiagonal} x {explicit inverse, "
+             "solve} x {ones,far}, ISTA shapes 6x4 and 5x5 x 7 regularisers x {ones,far}, FISTA (momentum) 6x4 x 7 regularisers x ones at 2^10 "
+             "only, LM {expfit, rosenbrock, quadpert} x 2 starts x {sparse+csr, dense}; right-hand-side structure {0, orthogonal to "
+             "range(A) (m>n), 2^-40 b}: CGLS 3 shapes x shift{0,.5} x {zero,ones,far}, PCGLS same x P{I, lower bidiagonal} x {explicit "
+             "inverse, solve}, FISTA and ISTA 6x4 x 7 regularisers x {zero,ones,far} and 3x5 x {zero,ones}, LM quadpert x {0, orthogonal, "
+             "tiny} and expfit x {0, tiny} x 2 starts x {sparse+csr, dense}; all dense storage, both operator forms",
     "thorough": "as quick with 4 shapes (adds 8x6), every start for every solver, 6 boxes, 4 L1 strengths, finer lattices "
                 "(d=2: 25^2, d=3: 13^3), 3 step sizes; start representation adds int32 and integer list, sparse storage, all 4 "
                 "preconditioners, FISTA on all shapes x 5 regularisers x far start, LM Rosenbrock from integer starts, "
-                "all 10 minimize methods with and without gradient",
+                "all 10 minimize methods with and without gradient; start scale and right-hand-side structure facets: 4 shapes, dense "
+                "and sparse storage, all 4 preconditioners, all three non-zero starts for PCGLS, ISTA all shapes with m>=n x all "
+                "regularisers x 3 step sizes at 2^{10,20,30} and the under-determined 3x5 at 2^10, FISTA (momentum) 3 shapes at 2^10 "
+                "and 2^20, structure cells for FISTA/ISTA on all 4 shapes x 3 starts",
 }
 ASSUMPTIONS = [
     "numpy dense linear algebra (solve, lstsq, svd) is the trusted base of all reference optimality systems",
@@ -62,6 +79,19 @@ ASSUMPTIONS = [
     "user callbacks of the LM start-representation cells convert their argument with numpy.asarray(x, float)",
     "PCGLS accepts a `shift` argument; the statement's '(shifted, optionally preconditioned) normal equations' is read as: "
     "a non-zero shift is honoured or refused",
+    "start-scale / right-hand-side-structure cells, CGLS/PCGLS: the returned point must satisfy ||A^T(b-Ax)-s x|| <= 1e-7 "
+    "max(||A^T b||, ||Hx||) + 10 tol ||P|| ||P^-T s0|| + 1e3 eps (||H|| ||x0|| + ||A^T b||), s0 = initial normal residual computed "
+    "densely: the solver's documented stopping rule is relative to s0, so from a start of norm 2^30 nothing sharper than tol ||s0|| "
+    "is promised; the distance to the dense solution is bounded by ||H^-1|| times that; meeting the stopping rule within 400 "
+    "iterations is demanded unless s0 is zero to rounding (start already the solution).  The solver's second, inherited stopping "
+    "test ||x|| tol >= 1 is outside the bound: every start has ||x0|| < 2e11 < 1/tol",
+    "start-scale / structure cells, FISTA/ISTA: the stopping rule (abstol on the step) is absolute, hence the same optimality "
+    "systems and tolerances as in the base product; the momentum variant only has an O(||x0-x*||^2/k^2) guarantee, so scales "
+    "beyond 2^10 (quick) / 2^20 (thorough) and the under-determined shape are not enumerated for it; runs reaching maxit count only",
+    "start-scale / structure cells, LM: stationarity is demanded relative to the initial gradient (||J^T r|| <= 1e-7 ||J0^T r0|| + "
+    "1e-10 ||J|| ||r||) since the stopping rule is relative to it; a scaled start at which the residual/Jacobian is not finite or "
+    "the Jacobian is numerically rank deficient (exp underflow: sigma_min <= 1e-12 sigma_max) lies outside the regular domain: "
+    "the cell is counted, not run; a start with exactly zero gradient (zero data, zero start) is itself stationary and returning it after 0 iterations meets the demand (0 <= 0)",
 ]
 
 SHAPES_Q = [(6, 4), (5, 5), (3, 5)]
@@ -77,6 +107,11 @@ MIN_METHODS_REP_Q = [None, "Nelder-Mead", "L-BFGS-B", "TNC", "SLSQP"]
 REPS_Q = ["int64", "float32", "list", "CUQIarray"]
 REPS_T = ["int64", "int32", "float32", "list", "intlist", "CUQIarray"]
 INT_REPS = ("int64", "int32", "intlist")
+# start-vector SCALE facet: start = 2^e x catalogue start (e = 0 is the base product); exact scaling, ||x0|| * tol < 1 throughout
+SCALES = [10, 20, 30]
+# right-hand-side / solution STRUCTURE facet: b = 0, b exactly orthogonal to range(A) (m > n), b = 2^-40 x catalogue b
+BKINDS = ["zero", "orth", "tiny"]
+TINY = 2.0 ** -40
 
 
 # ----------------------------------------------------------------------------------------
@@ -187,6 +222,7 @@ def cells(tier, seed):
                 for jac in (True, False):
                     for st in (0, 1):
                         out.append({"kind": "ls", "method": method, "loss": "linear", "jac": jac, "x0type": rep, "x0start": st, "cat": k})
+    out.extend(_wide_cells(q, shapes, regs, steps, k))
     # projections / prox
     ops = [("nonneg", None)] + [("box", bx) for bx in BOXES_T] + [("l1", g) for g in ([0.0] + L1_Q if q else L1_T + [0.5])]
     for d in (1, 2, 3):
@@ -195,16 +231,148 @@ def cells(tier, seed):
     return out
 
 
+def _wide_cells(q, shapes, regs, steps, k):
+    """Cells of the start-vector SCALE facet and of the right-hand-side / solution STRUCTURE facet (all iterative solvers)."""
+    out = []
+    storages = ("dense",) if q else ("dense", "sparse")
+    precs = ("I", "lowertri") if q else ("I", "diag", "tridiag", "lowertri")
+    # ---- (i) scale of the start vector: 2^e x (ones / e1 / far); the zero start is scale invariant (base product)
+    for e in SCALES:
+        for (m, n) in shapes:
+            for storage in storages:
+                for shift in (0.0, 0.5):
+                    for start in ("ones", "e1", "far"):
+                        out.append({"kind": "cgls", "m": m, "n": n, "storage": storage, "shift": shift, "start": start,
+                                    "scale": e, "facet": "x0-scale", "cat": k})
+                    for P in precs:
+                        for pinv in ("explicit", "solve"):
+                            for start in (("ones", "far") if q else ("ones", "e1", "far")):
+                                out.append({"kind": "pcgls", "m": m, "n": n, "storage": storage, "shift": shift, "P": P,
+                                            "pinv": pinv, "start": start, "scale": e, "facet": "x0-scale", "cat": k})
+        for (m, n) in shapes:
+            for adaptive in (False, True):
+                # ISTA converges linearly on the strictly convex (m >= n) problems: every scale; the momentum variant has an
+                # O(distance^2 / k^2) bound only: 2^10 (quick), 2^10 and 2^20 (thorough); under-determined shape: ISTA 2^10, thorough
+                if m >= n:
+                    if adaptive and (e > (10 if q else 20) or (q and (m, n) != (6, 4))):
+                        continue
+                elif q or adaptive or e > 10:
+                    continue
+                for storage in (("dense",) if (q or adaptive) else storages):
+                    for start in (("ones",) if (q and adaptive) else ("ones", "far")):
+                        for (rk, rp) in regs:
+                            for st in ((0.99,) if (q or adaptive) else steps):
+                                out.append({"kind": "fista", "m": m, "n": n, "storage": storage, "start": start, "adaptive": adaptive,
+                                            "reg": rk, "regpar": rp, "step": st, "scale": e, "facet": "x0-scale", "cat": k})
+        # (smalldecay: every scaled start has an underflowing, rank-deficient Jacobian - outside the regular domain)
+        for prob in ("expfit", "rosenbrock", "quadpert"):
+            for (sparse_flag, jtype) in ((True, "csr"), (False, "dense")):
+                for start in (0, 1):
+                    out.append({"kind": "lm", "prob": prob, "sparse": sparse_flag, "jtype": jtype, "start": start,
+                                "gradtol": "reachable", "scale": e, "facet": "x0-scale", "cat": k})
+    # ---- (ii) structure of the right-hand side / of the solution, from zero and non-zero starts
+    for (m, n) in shapes:
+        for bk in BKINDS:
+            if bk == "orth" and m <= n:
+                continue
+            for storage in storages:
+                for shift in (0.0, 0.5):
+                    for start in ("zero", "ones", "far"):
+                        out.append({"kind": "cgls", "m": m, "n": n, "storage": storage, "shift": shift, "start": start,
+                                    "b": bk, "facet": "rhs-structure", "cat": k})
+                        for P in precs:
+                            for pinv in ("explicit", "solve"):
+                                out.append({"kind": "pcgls", "m": m, "n": n, "storage": storage, "shift": shift, "P": P,
+                                            "pinv": pinv, "start": start, "b": bk, "facet": "rhs-structure", "cat": k})
+            if q and (m, n) not in ((6, 4), (3, 5)):
+                continue
+            for storage in storages:
+                for start in (("zero", "ones") if (q and m < n) else ("zero", "ones", "far")):
+                    for adaptive in (True, False):
+                        for (rk, rp) in regs:
+                            out.append({"kind": "fista", "m": m, "n": n, "storage": storage, "start": start, "adaptive": adaptive,
+                                        "reg": rk, "regpar": rp, "step": 0.99, "b": bk, "facet": "rhs-structure", "cat": k})
+    for (prob, datas) in (("quadpert", BKINDS), ("expfit", ("zero", "tiny"))):
+        for data in datas:
+            for (sparse_flag, jtype) in ((True, "csr"), (False, "dense")):
+                for start in (0, 1):
+                    out.append({"kind": "lm", "prob": prob, "sparse": sparse_flag, "jtype": jtype, "start": start,
+                                "gradtol": "reachable", "data": data, "facet": "rhs-structure", "cat": k})
+    return out
+
+
 # ----------------------------------------------------------------------------------------
 # shared problem data
 # ----------------------------------------------------------------------------------------
+def _left_null(A):
+    """A vector b with A^T b = 0 EXACTLY (A: m x n, m > n, dyadic entries): rational Gauss-Jordan elimination on A^T, free
+    unknowns set to 1, -2, 3, ..., scaled to coprime integers and then by a power of two into [-1, 1] - all entries are
+    dyadic and small, so the floating-point product A^T b is exactly the zero vector."""
+    from fractions import Fraction
+    from math import gcd
+    m, n = A.shape
+    M = [[Fraction(float(A[i, j])) for i in range(m)] for j in range(n)]
+    piv, r = [], 0
+    for c in range(m):
+        p = next((i for i in range(r, n) if M[i][c] != 0), None)
+        if p is None:
+            continue
+        M[r], M[p] = M[p], M[r]
+        M[r] = [v / M[r][c] for v in M[r]]
+        for i in range(n):
+            if i != r and M[i][c] != 0:
+                f = M[i][c]
+                M[i] = [a - f * bb for a, bb in zip(M[i], M[r])]
+        piv.append(c)
+        r += 1
+        if r == n:
+            break
+    free = [c for c in range(m) if c not in piv]
+    v = [Fraction(0)] * m
+    for j, c in enumerate(free):
+        v[c] = Fraction((j + 1) * (-1) ** j)
+    for i, c in enumerate(piv):
+        v[c] = -sum(M[i][f] * v[f] for f in free)
+    den = 1
+    for t in v:
+        den = den * t.denominator // gcd(den, t.denominator)
+    iv = [int(t * den) for t in v]
+    g = 0
+    for t in iv:
+        g = gcd(g, abs(t))
+    iv = [t // g for t in iv]
+    e = 0
+    while 2 ** e < max(abs(t) for t in iv):
+        e += 1
+    b = np.array(iv, dtype=float) / 2.0 ** e
+    if np.any(A.T @ b != 0.0):
+        raise ValueError("left null vector not exact in floating point")
+    return b
+
+
+def _rhs(A, b, kind):
+    """Right-hand side of the structure facet."""
+    if kind in (None, "cat"):
+        return b
+    if kind == "zero":
+        return np.zeros(len(b))
+    if kind == "tiny":
+        return b * TINY
+    if kind == "orth":
+        return _left_null(A)
+    raise ValueError(kind)
+
+
 def _problem(cell):
     m, n, k = cell["m"], cell["n"], cell["cat"]
     A = refs.full_matrix(m, n, k)
-    b = refs.dyadic_vec(m, k + 1)
-    if cell.get("b") == "zero":
-        b = np.zeros(m)
+    b = _rhs(A, refs.dyadic_vec(m, k + 1), cell.get("b"))
     return A, b
+
+
+def _cell_start(cell, n, k):
+    """Start vector of a cell: catalogue start times 2^scale (exact)."""
+    return _start(cell["start"], n, k) * 2.0 ** cell.get("scale", 0)
 
 
 def _start(name, n, k):
@@ -311,6 +479,9 @@ def _shape_class(m, n):
 def _eval_cg(cell, res):
     import cuqi
     from cuqi.solver._solver import CGLS, PCGLS
+    if cell.get("facet"):
+        _eval_cg_wide(cell, res)
+        return
     A, b = _problem(cell)
     m, n, k = cell["m"], cell["n"], cell["cat"]
     shift = cell["shift"]
@@ -395,6 +566,120 @@ def _eval_cg(cell, res):
         res.nontrivial = False
     if "matrix" in sols:
         res.sample = {"x": sols["matrix"], "dense_reference": xref}
+
+
+def _eval_cg_wide(cell, res):
+    """Cells of the start-SCALE facet (start = 2^e x catalogue start) and of the right-hand-side STRUCTURE facet (b = 0,
+    b exactly orthogonal to range(A), b = 2^-40 x catalogue b; zero and non-zero starts); both operator forms.
+
+    Oracle (independent dense optimality system, scale aware): the solver returns (a raise is a violation - the statement
+    promises the solution "from any starting point" and every input here is a legal float64 ndarray problem), meets its own
+    stopping rule within maxit unless the start already solves the system to rounding, and the returned point satisfies
+        ||A^T(b-Ax) - s x||  <=  1e-7 max(||A^T b||, ||Hx||)  +  10 tol ||P|| ||P^-T s0||  +  1e3 eps (||H|| ||x0|| + ||A^T b||)
+    i.e. the usual 1e-7 relative demand plus what the stopping rule (relative to the INITIAL preconditioned normal residual
+    s0 = A^T(b-Ax0) - s x0, computed densely here) and double-precision storage of the start allow; the distance to the dense
+    solution of H x = A^T b is bounded by ||H^-1|| times that; the two operator forms agree."""
+    import cuqi
+    from cuqi.solver._solver import CGLS, PCGLS
+    A, b = _problem(cell)
+    m, n, k = cell["m"], cell["n"], cell["cat"]
+    shift, kind, fac = cell["shift"], cell["kind"], cell["facet"]
+    name = "CGLS" if kind == "cgls" else "PCGLS"
+    x0 = _cell_start(cell, n, k)
+    maxit, tol = 400, 1e-12
+    eps = float(np.finfo(float).eps)
+    H = A.T @ A + shift * np.eye(n)
+    rhs = A.T @ b
+    s0 = rhs - H @ x0
+    if kind == "pcgls":
+        Pd = np.asarray(_P(cell["P"], n, k).todense(), float)
+        ns0 = float(np.linalg.norm(np.linalg.solve(Pd.T, s0)))
+        amp = float(np.linalg.norm(Pd, 2))        # ||s|| <= ||P^T|| ||P^-T s||
+    else:
+        ns0, amp = float(np.linalg.norm(s0)), 1.0
+    sv = np.linalg.svd(H, compute_uv=False)
+    nonsing = (m >= n) or shift > 0
+    xref = np.linalg.solve(H, rhs) if nonsing else None
+    fpfloor = 1e3 * eps * (float(sv[0]) * float(np.linalg.norm(x0)) + float(np.linalg.norm(rhs)))
+    stopb = 10 * tol * amp * ns0
+    already = ns0 <= fpfloor            # the start solves the system to rounding: a relative stopping rule cannot be demanded
+    tag = ("2^%d" % cell["scale"]) if fac == "x0-scale" else "b=%s" % cell["b"]
+    sols, bad, noconv = {}, {}, {}
+    old = cuqi.config.MAX_DIM_INV
+    try:
+        if kind == "pcgls" and cell["pinv"] == "solve":
+            cuqi.config.MAX_DIM_INV = 1
+        for form in ("matrix", "function"):
+            Aop = _store(A, cell["storage"])
+            op = Aop if form == "matrix" else _funform(Aop)
+            x0c = x0.copy()
+            res.state("%s:%s:%s" % (form, cell["start"], tag))
+            try:
+                if kind == "cgls":
+                    x, it = CGLS(op, b.copy(), x0c, maxit, tol, shift).solve()
+                else:
+                    x, it = PCGLS(op, b.copy(), x0c, _P(cell["P"], n, k), maxit, tol, shift).solve()
+                x = np.asarray(x, float).ravel()
+                it = int(it)
+                if x.shape != (n,):
+                    raise ValueError("returned point has shape %s" % (x.shape,))
+            except Exception as e:
+                res.refused += 1
+                res.outcomes.add("raises:" + type(e).__name__)
+                res.fail("C16|%s|raises|%s" % (name, fac), "solver raised %r on a legal problem (%s, start %s, shift %g, %s form): the "
+                         "statement promises the solution from any starting point" % (e, tag, cell["start"], shift, form))
+                continue
+            res.transitions += it
+            res.evaluations += 1
+            sols[form] = x
+            if not np.array_equal(x0c, x0):
+                res.fail("C16|%s|start-vector-altered|%s" % (name, fac), "x0 was modified in place")
+            if it >= maxit:
+                res.count("maxit-reached")
+                res.outcomes.add("maxit")
+                if not already:
+                    noconv[form] = ("did not meet its own stopping rule (tol=%g) within %d iterations on a %dx%d problem with "
+                                    "cond(A) < 10 (%s, start %s)" % (tol, maxit, m, n, tag, cell["start"]), x)
+                    continue
+            else:
+                res.count("converged")
+            res.outcomes.add("%s:%s:%s:it=%d" % (form, _shape_class(m, n), tag, it))
+            finite = bool(np.all(np.isfinite(x)))
+            rn = float(np.linalg.norm(rhs - H @ x)) if finite else float("inf")
+            bound = 1e-7 * max(float(np.linalg.norm(rhs)), float(np.linalg.norm(H @ x)) if finite else 0.0) + stopb + fpfloor
+            why = None
+            if not rn <= bound:
+                why = ("||A^T(b-Ax)-s x|| = %.3g > %.3g (1e-7 relative + 10 tol x initial normal residual %.3g + rounding floor %.3g)"
+                       % (rn, bound, ns0, fpfloor))
+            elif xref is not None and not float(np.linalg.norm(x - xref)) <= 2 * bound / float(sv[-1]) + 1e-12 * float(np.linalg.norm(xref)):
+                why = ("distance %.3g to the dense solution of the normal equations exceeds ||H^-1|| x residual bound %.3g"
+                       % (float(np.linalg.norm(x - xref)), 2 * bound / float(sv[-1])))
+            if why:
+                bad[form] = ("%s, start %s: stopped after %d iterations but %s; x=%s, dense solution=%s"
+                             % (tag, cell["start"], it, why, x.tolist(), None if xref is None else xref.tolist()), x)
+        if noconv:
+            f0 = sorted(noconv)[0]
+            res.fail("C16|%s|no-convergence|%s" % (name, fac), noconv[f0][0], x=noconv[f0][1], forms=sorted(noconv))
+        if bad:
+            f0 = sorted(bad)[0]
+            res.fail("C16|%s|normal-equations|%s" % (name, fac), bad[f0][0], x=bad[f0][1], xref=xref, shift=shift, forms=sorted(bad))
+        if len(sols) == 2:
+            res.evaluations += 1
+            xm, xf = sols["matrix"], sols["function"]
+            if not np.array_equal(xm, xf, equal_nan=True):
+                with np.errstate(all="ignore"):
+                    d = float(np.max(np.abs(xm - xf)))
+                    lim = 1e-9 * max(float(np.max(np.abs(xm))), float(np.max(np.abs(xf)))) + 1e3 * eps * float(np.linalg.norm(x0))
+                if not d <= lim:
+                    res.fail("C16|%s|matrix-vs-function|%s" % (name, fac), "matrix form and function form return different points "
+                             "(max difference %.3g)" % d, matrix=xm, function=xf)
+    finally:
+        cuqi.config.MAX_DIM_INV = old
+    if res.branches.get("converged", 0) == 0:
+        res.nontrivial = False
+    if "matrix" in sols:
+        res.sample = {"x0_norm": float(np.linalg.norm(x0)), "x": sols["matrix"], "dense_reference": xref,
+                      "initial_normal_residual": ns0}
 
 
 def _eval_cg_rep(cell, res, A, b, x0, H, rhs, xref, scale, maxit, tol):
@@ -582,7 +867,7 @@ def _eval_fista(cell, res):
     adaptive = cell["adaptive"]
     abstol = 1e-9 if adaptive else 1e-11
     maxit = 200000
-    x0 = _start(cell["start"], n, k)
+    x0 = _cell_start(cell, n, k)
     lam = 0.0
     lo = up = None
     if reg == "l1":
@@ -696,6 +981,61 @@ def _eval_fista(cell, res):
             res.nontrivial = False
         return
 
+    if cell.get("facet"):
+        # start-SCALE facet (start = 2^e x catalogue start) / right-hand-side STRUCTURE facet (b = 0, b orthogonal to range(A),
+        # b = 2^-40 x catalogue b): the stopping rule of the solver is absolute, so the returned point is judged by exactly the
+        # same optimality systems and tolerances as in the base product; a raise is a violation; runs that reach maxit only count
+        fac = cell["facet"]
+        wf = "%s,adaptive=%s" % (fac, adaptive)
+        tag = ("2^%d" % cell["scale"]) if fac == "x0-scale" else "b=%s" % cell["b"]
+        badw = {}
+        for form in ("matrix", "function"):
+            Aop = _store(A, cell["storage"])
+            op = Aop if form == "matrix" else _funform(Aop)
+            res.state("%s:%s:%s" % (form, cell["start"], tag))
+            x0c = x0.copy()
+            try:
+                x, it = FISTA(op, b.copy(), x0c, prox, maxit=maxit, stepsize=t, abstol=abstol, adaptive=adaptive).solve()
+                x = np.asarray(x, float).ravel()
+                it = int(it)
+                if x.shape != (n,):
+                    raise ValueError("returned point has shape %s" % (x.shape,))
+            except Exception as e:
+                res.refused += 1
+                res.outcomes.add("raises:" + type(e).__name__)
+                res.fail("C16|FISTA|raises|%s" % wf, "solver raised %r on a legal problem (%s, %s, start %s, %s form)"
+                         % (e, regname, tag, cell["start"], form))
+                continue
+            res.transitions += it
+            res.evaluations += 1
+            sols[form] = x
+            if not np.array_equal(x0c, x0):
+                res.fail("C16|FISTA|start-vector-altered|%s" % wf, "x0 was modified in place")
+            if it >= maxit:
+                res.count("maxit-reached")
+                res.outcomes.add("maxit")
+                continue
+            res.count("converged")
+            res.outcomes.add("%s:%s:%s:%s:act=%s" % (solver, _shape_class(m, n), regname, tag,
+                                                     "".join("0" if v == 0 else "x" for v in np.round(x, 9))))
+            verdict = judge(x)
+            if verdict is not None:
+                badw.setdefault(verdict[0], {})[form] = ("%s, %s, start %s: stopped after %d<maxit iterations but %s"
+                                                         % (regname, tag, cell["start"], it, verdict[1]), x)
+        for opn, forms in sorted(badw.items()):
+            f0 = sorted(forms)[0]
+            res.fail("C16|FISTA|%s|%s" % (opn, wf), forms[f0][0], forms=sorted(forms), x=forms[f0][1], xstar=xs)
+        if len(sols) == 2 and res.branches.get("converged", 0) == 2:
+            res.evaluations += 1
+            if not close(sols["matrix"], sols["function"], 1e-9):
+                res.fail("C16|FISTA|matrix-vs-function|%s" % wf, "matrix form and function form return different points",
+                         matrix=sols["matrix"], function=sols["function"])
+        if res.branches.get("converged", 0) == 0:
+            res.nontrivial = False
+        if "matrix" in sols:
+            res.sample = {"x0_norm": float(np.linalg.norm(x0)), "x": sols["matrix"], "enumerated_minimiser": xs, "objective": Fs}
+        return
+
     for form in ("matrix", "function"):
         Aop = _store(A, cell["storage"])
         op = Aop if form == "matrix" else _funform(Aop)
@@ -769,10 +1109,15 @@ def _eval_fista(cell, res):
 # ----------------------------------------------------------------------------------------
 # Levenberg-Marquardt
 # ----------------------------------------------------------------------------------------
-def _lm_problem(name, k):
+def _lm_problem(name, k, data=None):
+    """Residual, Jacobian and the two catalogue starts; `data` (structure facet; expfit and quadpert only): the data vector is
+    zero / exactly orthogonal to range(A) (quadpert) / 2^-40 x the catalogue data."""
+    if data not in (None, "cat") and name not in ("expfit", "quadpert"):
+        raise ValueError("no data variants for " + name)
     if name == "expfit":
         tt = 0.25 * np.arange(6)
         y = 2.0 * np.exp(-1.0 * tt) + 0.02 * refs.dyadic_vec(6, k)
+        y = _rhs(None, y, data)
         r = lambda x: x[0] * np.exp(x[1] * tt) - y
         J = lambda x: np.column_stack([np.exp(x[1] * tt), x[0] * tt * np.exp(x[1] * tt)])
         starts = [np.array([1.0, 0.0]), np.array([3.0, -2.0])]
@@ -786,7 +1131,7 @@ def _lm_problem(name, k):
         starts = [np.array([-1.0, 2.0]), np.array([2.0, -1.0 - k])]
     elif name == "quadpert":
         A = refs.full_matrix(5, 3, k)
-        b = refs.dyadic_vec(5, k + 1)
+        b = _rhs(A, refs.dyadic_vec(5, k + 1), data)
         idx = np.arange(5) % 3
 
         def r(x):
@@ -837,6 +1182,9 @@ def _eval_lm(cell, res):
         res.outcomes.add("explicit-returned")
         if info["nfev"] < 50 and np.linalg.norm(g) > 1e-7:
             res.fail("C16|LM|stationarity|form=matrix", "matrix form returned a non-stationary point of ||Ax||^2, |grad|=%.3g" % np.linalg.norm(g), x=x)
+        return
+    if cell.get("facet"):
+        _eval_lm_wide(cell, res, maxit)
         return
     r, J, starts = _lm_problem(cell["prob"], k)
     x0 = starts[cell["start"]].astype(float)
@@ -900,6 +1248,84 @@ def _eval_lm(cell, res):
     except Exception as e:
         res.fail("C16|LM|info|%s" % facet, "info unusable: %r" % (e,))
     res.sample = {"x": x, "grad_norm": gn, "iterations": it}
+
+
+def _eval_lm_wide(cell, res, maxit):
+    """LM cells of the start-SCALE facet (start = 2^e x catalogue start) and of the data STRUCTURE facet (zero data, data
+    exactly orthogonal to range(A), data 2^-40 x catalogue; start 0 of quadpert is the zero vector); documented
+    sparse/Jacobian combinations, reachable gradtol.  Oracle: the solver returns (a raise is a violation whenever the residual
+    and the Jacobian at the start are finite and the Jacobian has numerical full rank - otherwise the start lies outside the
+    problem's regular domain and a refusal only counts), and a point returned before maxit is stationary relative to the
+    initial gradient (the solver's stopping rule is relative to it):
+        ||J^T r||  <=  1e-7 ||J0^T r0||  +  1e-10 ||J|| ||r||   (second term: rounding of the product evaluated here)."""
+    import scipy.sparse as sp
+    from cuqi.solver import LM
+    k, fac = cell["cat"], cell["facet"]
+    r, J, starts = _lm_problem(cell["prob"], k, cell.get("data"))
+    x0 = np.asarray(starts[cell["start"]], float) * 2.0 ** cell.get("scale", 0)
+    jac = (lambda x: sp.csr_matrix(J(x))) if cell["jtype"] == "csr" else J
+    tag = ("2^%d" % cell["scale"]) if fac == "x0-scale" else "data=%s" % cell["data"]
+    res.state("sparse=%s,jac=%s,%s,%s" % (cell["sparse"], cell["jtype"], cell["prob"], tag))
+    with np.errstate(all="ignore"):
+        r0, J0 = np.asarray(r(x0), float), np.asarray(J(x0), float)
+        regular = bool(np.all(np.isfinite(r0)) and np.all(np.isfinite(J0)))
+        if regular:
+            sv = np.linalg.svd(J0, compute_uv=False)
+            regular = bool(sv[-1] > 1e-12 * sv[0])
+        g0n = float(np.linalg.norm(J0.T @ r0)) if regular else float("nan")
+    if not regular:
+        # e.g. exp(-2^e t) underflows: a zero Jacobian column; nothing is promised there and the cell is not run
+        res.count("start-outside-regular-domain")
+        res.outcomes.add("irregular-start:%s" % cell["prob"])
+        res.nontrivial = False
+        return
+    x0c = x0.copy()
+    try:
+        x, info = LM(r, x0c, jac, maxit=maxit, tol=1e-12, gradtol=1e-9, sparse=cell["sparse"]).solve()
+        it = int(info["nfev"])
+        x = np.asarray(x, float).ravel()
+        if x.shape != x0.shape:
+            raise ValueError("returned point has shape %s" % (x.shape,))
+    except Exception as e:
+        res.refused += 1
+        res.outcomes.add("raises:%s" % type(e).__name__)
+        res.nontrivial = False
+        res.fail("C16|LM|raises|%s" % fac, "solver raised %r on the smooth problem %r (%s) from the start %s where residual and "
+                 "Jacobian are finite and the Jacobian has full rank" % (e, cell["prob"], tag, x0.tolist()))
+        return
+    res.transitions += it
+    res.evaluations += 1
+    if not np.array_equal(x0c, x0):
+        res.fail("C16|LM|start-vector-altered|%s" % fac, "x0 was modified in place")
+    if it >= maxit:
+        res.count("maxit-reached")
+        res.outcomes.add("maxit")
+        res.nontrivial = False
+        return
+    res.count("converged")
+    res.outcomes.add("%s:%s:it=%d" % (cell["prob"], tag, it))
+    if not np.all(np.isfinite(x)):
+        res.fail("C16|LM|nonfinite-result|%s" % fac, "stopped after %d<maxit iterations and returned x=%s (start %s, %s)"
+                 % (it, x.tolist(), x0.tolist(), tag), x0=x0)
+        return
+    with np.errstate(all="ignore"):
+        rx, Jx = np.asarray(r(x), float), np.asarray(J(x), float)
+        gn = float(np.linalg.norm(Jx.T @ rx))
+        bound = 1e-7 * g0n + 1e-10 * float(np.linalg.norm(Jx)) * float(np.linalg.norm(rx))
+    if not gn <= bound:
+        res.fail("C16|LM|stationarity|%s" % fac, "%s, %s, start %s: stopped after %d<maxit iterations but ||J^T r|| = %.3g > %.3g "
+                 "(initially %.3g)" % (cell["prob"], tag, x0.tolist(), it, gn, bound, g0n), x=x)
+    try:
+        rf = np.asarray(info["func"], float).ravel()
+        Jf = info["Jac"]
+        Jf = np.asarray(Jf.todense()) if hasattr(Jf, "todense") else np.asarray(Jf, float)
+        sc = max(float(np.max(np.abs(rx))), np.finfo(float).tiny)
+        sj = max(float(np.max(np.abs(Jx))), np.finfo(float).tiny)
+        if rf.shape != rx.shape or Jf.shape != Jx.shape or not close(rf / sc, rx / sc, 1e-9) or not close(Jf / sj, Jx / sj, 1e-9):
+            res.fail("C16|LM|info|%s" % fac, "info['func']/info['Jac'] are not the residual/Jacobian at the returned point")
+    except Exception as e:
+        res.fail("C16|LM|info|%s" % fac, "info unusable: %r" % (e,))
+    res.sample = {"x0": x0, "x": x, "grad_norm": gn, "initial_grad_norm": g0n, "iterations": it}
 
 
 def _eval_lm_rep(cell, res, r0, J0, x0, maxit):
